@@ -309,6 +309,45 @@ def build_c13(mir):
     k2.reach("reach", [], "(= %s (- 65536))" % f[2][0][1], "-1.0 reachable")
     k2.sample_rows = lambda rnd: [[v] for v in (-32768, -16384, -1, 0, 1, 16384, 32767)] + [[rnd.randint(-32768, 32767)] for _ in range(40)]
     ks.append(k2)
+    # Fixed (16.16) and F2Dot14 (2.14) arithmetic used by both normalisation steps
+    for tname, bits, frac, one in (("Fixed", 32, 16, 65536), ("F2Dot14", 16, 14, 16384)):
+        ty = (True, bits)
+        k3 = Kernel("c13_%s_mul_div" % tname.lower(), "C13", "%s_mul_div" % tname.lower(), [("a", ty), ("b", ty)],
+                    "%s multiplication and division" % tname, "all %d-bit operand pairs" % bits)
+        ex3 = mir2smt.Executor(mir)
+        k3.ex = ex3
+        fmul = mir.resolve("<%s as Mul>::mul" % tname)
+        fdiv = mir.resolve("<%s as Div>::div" % tname)
+        if fmul is None or fdiv is None:
+            raise Unsupported("cannot resolve %s Mul/Div" % tname)
+        va = ("agg", None, {0: ("int", "a", ty)})
+        vb = ("agg", None, {0: ("int", "b", ty)})
+        rm, pm = ex3.call(fmul, [va, vb])
+        rd, pd = ex3.call(fdiv, [va, vb])
+        om, od = rm[2][0][1], rd[2][0][1]
+        k3.outputs = [om, od]
+        k3.panic = ex3.define("Bool", "(or %s %s)" % (pm, pd), "p")
+        lo, hi = -(1 << (bits - 1)), (1 << (bits - 1)) - 1
+        mod = 1 << bits
+        wrapf = lambda t: "(- (mod (+ %s %d) %d) %d)" % (t, -lo, mod, -lo)
+        k3.prove("no_panic", [], "(not %s)" % k3.panic, lambda i, o: o[0] != "panic", "neither operation panics for any operands")
+        k3.prove("mul_is_floor_of_product", [], "(= %s %s)" % (om, wrapf("(div (* a b) %d)" % one)),
+                 lambda i, o, one=one, lo=lo, mod=mod: o[0] == "ok" and o[1][0] == (((i[0] * i[1]) // one - lo) % mod) + lo,
+                 "a*b = floor(a*b / 2^%d) truncated to %d bits (arithmetic shift)" % (frac, bits))
+        k3.prove("mul_by_one", ["(= b %d)" % one] if one <= hi else ["(= b %d)" % (one // 2)],
+                 "(= %s a)" % om if one <= hi else "(= %s (div a 2))" % om,
+                 None, "multiplying by 1.0 is the identity")
+        k3.prove("div_by_zero_saturates", ["(= b 0)"], "(= %s %d)" % (od, hi),
+                 lambda i, o, hi=hi: o[0] == "ok" and o[1][1] == hi, "x / 0 is the largest value (the documented stand-in for infinity)")
+        k3.prove("div_by_one", ["(= b %d)" % one] if one <= hi else ["(= b %d)" % (one // 2)],
+                 "(= %s a)" % od if one <= hi else "(= %s %s)" % (od, wrapf("(* 2 a)")),
+                 None, "dividing by 1.0 is the identity")
+        k3.prove("div_sign", ["(not (= b 0))", "(< (abs a) %d)" % (1 << (bits - frac - 1 + frac - frac))],
+                 "(=> (and (> a 0) (> b 0) (>= a b)) (> %s 0))" % od, None, "a positive quotient of positives is positive (small operands)")
+        k3.reach("reach", [], "(and (= %s 3) (= %s 5))" % (om, od), "both results reachable")
+        k3.sample_rows = lambda rnd, lo=lo, hi=hi, one=one: [[a, b] for a in (lo, -one, -1, 0, 1, 3, one, hi) for b in (lo, -one, -2, 0, 1, one // 2, one, hi)] + \
+            [[rnd.randint(lo, hi), rnd.randint(lo, hi)] for _ in range(60)]
+        ks.append(k3)
     return ks
 
 
